@@ -29,7 +29,7 @@ def cmd(op, x="A", id="", rule="", l="0", r="0", s="", prune=False, prefix=False
 # alphabet for the exhaustive enumeration (3 species, 2 rules, explicit ids that look generated)
 ALPHABET = (
     [cmd("addgen", rule="r", l=l, r=r) for l, r in [("A", "B"), ("AB", "C"), ("2A", "0"), ("0", "C"), ("B", "A"), ("0", "0")]]
-    + [cmd("addgen", rule="q", l="A", r="B")]
+    + [cmd("addgen", rule="q", l="A", r="B"), cmd("addgen", rule="r", l="AB", r="2A")]   # incl. a catalytic reaction
     + [cmd("add", id="r_1", rule="r", l="A", r="B"), cmd("add", id="r_1", rule="r", l="B", r="C"),
        cmd("add", id="r_2", rule="r", l="A", r="B"), cmd("add", id="x", rule="q", l="2A", r="B")]
     + [cmd("rmrxn", id=i) for i in ("r_1", "r_2", "x")]
